@@ -101,10 +101,34 @@ def item_dep(it):
   keys = {b: sc.key[b] for b in sc.blks}
   # explicit block constraints as given by the user
   explicit = set()
-  try:
-    for (x, y) in top.get_all_explicit_constraints():
-      if x in keys and y in keys: explicit.add((keys[x], keys[y]))
-  except Exception: pass
+  U_U, RD_U, WR_U, _M = top.get_all_explicit_constraints()
+  for (x, y) in U_U:
+    if x in keys and y in keys: explicit.add((keys[x], keys[y]))
+
+  def cells_of(obj):
+    """[(cell name, bit mask)] covered by a signal object named in a RD()/WR() constraint"""
+    sl = getattr(obj._dsl, 'slice', None)
+    if sl is not None:
+      c = sim.by_name.get(repr(obj._dsl.parent_obj))
+      return [(c.name, ((1 << (sl.stop - sl.start)) - 1) << sl.start)] if c is not None else []
+    n = repr(obj)
+    if n in sim.by_name: return [(sim.by_name[n].name, (1 << width[sim.by_name[n].name]) - 1)]
+    out = {}
+    for c in sim.cells:
+      if any(a.startswith(n + '.') or a.startswith(n + '[') for a in c.names): out[c.name] = (1 << width[c.name]) - 1
+    return sorted(out.items())
+  width = {n: sc.V[n].size() for n in sc.names}
+  # RD(x) / WR(x) constraints: sign 1 = "RD/WR(x) < U(blk)", sign -1 = "U(blk) < RD/WR(x)"; the blocks that read / write x are
+  # taken from the SEMANTIC sets, never from pymtl3's own read/write metadata
+  for table, sets_ in ((RD_U, R), (WR_U, W)):
+    for obj, cons in table.items():
+      cm = cells_of(obj)
+      for sign, blk in cons:
+        if blk not in keys: continue
+        for e in sc.blks:
+          if e is blk: continue
+          if any(sets_[e][n] & m for n, m in cm if n in sets_[e]):
+            explicit.add((keys[e], keys[blk]) if sign == 1 else (keys[blk], keys[e]))
   need = []      # (writer key, reader key, witness cell)
   for a in sc.blks:
     for b in sc.blks:
@@ -115,7 +139,7 @@ def item_dep(it):
       if back: continue                                    # mutual dependence: a cycle (C11), no order is demanded here
       if (keys[b], keys[a]) in explicit: continue          # explicitly inverted by the user
       need.append((keys[a], keys[b], cell))
-  for x, y in explicit: need.append((x, y, '<explicit U(x) < U(y)>'))
+  for x, y in sorted(explicit): need.append((x, y, '<explicit constraint>'))
 
   def judge(order, label, group):
     pos = {}
@@ -412,6 +436,8 @@ def main():
   chk = Check('C02', tier)
   from checks.c01 import corpus
   shapes, hand, ff, std = corpus('thorough', 0)
+  from corpus import sched_designs as _SD
+  hand = hand + sorted(_SD.INVERTING)
   if tier == 'quick': shapes = shapes[chk.seed % 2::2]
   items = [dict(kind='cyclic', name='cyclic')]
   for n in ([8, 64, 1023] if tier == 'thorough' else [8, 64]): items.append(dict(kind='overlap', name=f'overlap{n}', n=n))
